@@ -501,7 +501,7 @@ func buildHistory(rt *rapid.T, full bool) (*histBuilder, string) {
 				}
 			case 8:
 				o := b.owners[rapid.IntRange(0, 1).Draw(rt, "owner")]
-				b.send(o, &storagetypes.MsgBuyStorage{Creator: o.Bech, ForAddress: o.Bech, DurationDays: rapid.SampledFrom([]int64{30, 60, 365}).Draw(rt, "days"), Bytes: rapid.SampledFrom([]int64{3_000_000_000, 6_000_000_000}).Draw(rt, "bytes"), PaymentDenom: "ujkl"})
+				b.send(o, &storagetypes.MsgBuyStorage{Creator: o.Bech, ForAddress: o.Bech, DurationDays: rapid.SampledFrom([]int64{30, 60, 365}).Draw(rt, "days"), Bytes: rapid.SampledFrom([]int64{3_000_000_000, 6_000_000_000, 4_999_000_000_000, 5_000_000_000_000, 20_000_000_000_000}).Draw(rt, "bytes"), PaymentDenom: "ujkl"}) // sizes on the borders between price classes too
 			case 9: // one transaction, two or three signers (one message each); some of them sign carelessly
 				n := rapid.IntRange(2, 3).Draw(rt, "signers")
 				first := rapid.IntRange(0, len(b.accs)-n).Draw(rt, "firstSigner")
